@@ -50,6 +50,11 @@ package part
 //@ spec wf4(n *node4) bool = n != nil && kindOf(n.flags) == 2 && sizeOf(n.flags) <= 4 && (forall i int :: 0 <= i && i < sizeOf(n.flags) ==> n.children[i] != nil) && (forall i int, j int :: 0 <= i && i < j && j < sizeOf(n.flags) ==> n.keys[i] < n.keys[j]) && (forall i int :: sizeOf(n.flags) <= i && i < 4 ==> n.children[i] == nil && n.keys[i] == 255)
 //@ spec wf16(n *node16) bool = n != nil && kindOf(n.flags) == 3 && sizeOf(n.flags) <= 16 && (forall i int :: 0 <= i && i < sizeOf(n.flags) ==> n.children[i] != nil) && (forall i int, j int :: 0 <= i && i < j && j < sizeOf(n.flags) ==> n.keys[i] < n.keys[j]) && (forall i int :: sizeOf(n.flags) <= i && i < 16 ==> n.children[i] == nil && n.keys[i] == 255)
 
+// node48 (C11, C04): children[0:size) are non-nil and sorted by their key byte; index maps a key
+// byte to 1 + the slot of the child with that key byte (0 = absent), in both directions.
+//@ spec keyOf(c *header) mathint = *c.prefixP
+//@ spec wf48(n *node48) bool = n != nil && kindOf(n.flags) == 4 && 1 <= sizeOf(n.flags) && sizeOf(n.flags) <= 48 && (forall i int :: 0 <= i && i < sizeOf(n.flags) ==> n.children[i] != nil && n.children[i].prefixP != nil && n.index[keyOf(n.children[i])] == i + 1) && (forall k int :: 0 <= k && k < 256 ==> n.index[k] <= sizeOf(n.flags) && (n.index[k] != 0 ==> keyOf(n.children[n.index[k] - 1]) == k)) && (forall i int, j int :: 0 <= i && i < j && j < sizeOf(n.flags) ==> keyOf(n.children[i]) < keyOf(n.children[j])) && (forall i int :: sizeOf(n.flags) <= i && i < 48 ==> n.children[i] == nil)
+
 //@ func (*header).node4
 //@   inline
 //@ func (*header).node16
@@ -85,8 +90,13 @@ package part
 //@   requires n != nil
 //@   requires kindOf(n.flags) == 2 ==> wf4(as(node4, n))
 //@   requires kindOf(n.flags) == 3 ==> wf16(as(node16, n))
-//@   requires kindOf(n.flags) == 2 || kindOf(n.flags) == 3
-//@   ensures @range 0 <= i && i <= sizeOf(n.flags)
+//@   requires kindOf(n.flags) == 4 ==> wf48(as(node48, n))
+//@   requires 2 <= kindOf(n.flags) && kindOf(n.flags) <= 5
+//@   ensures @range kindOf(n.flags) != 5 ==> 0 <= i && i <= sizeOf(n.flags)
+//@   ensures @lower48 kindOf(n.flags) == 4 ==> (forall j int :: 0 <= j && j < i ==> keyOf(as(node48, n).children[j]) < key) && (i < sizeOf(n.flags) ==> keyOf(as(node48, n).children[i]) >= key)
+//@   ensures @hit48 kindOf(n.flags) == 4 ==> (child != nil <==> as(node48, n).index[key] != 0) && (child != nil ==> child == as(node48, n).children[i] && i == as(node48, n).index[key] - 1)
+//@   ensures @direct256 kindOf(n.flags) == 5 ==> i == key && child == as(node256, n).children[key]
+//@   loop 2 invariant 0 <= lo && lo <= hi && hi <= size && size == sizeOf(n.flags) && arr(children) == addr(as(node48, n).children) && off(children) == 0 && len(children) == size && (forall j int :: 0 <= j && j < lo ==> keyOf(as(node48, n).children[j]) < key) && (forall j int :: hi <= j && j < size ==> keyOf(as(node48, n).children[j]) >= key)
 //@   ensures @lower4 kindOf(n.flags) == 2 ==> (forall j int :: 0 <= j && j < i ==> as(node4, n).keys[j] < key) && (i < sizeOf(n.flags) ==> as(node4, n).keys[i] >= key)
 //@   ensures @hit4 kindOf(n.flags) == 2 ==> (child != nil <==> (i < sizeOf(n.flags) && as(node4, n).keys[i] == key)) && (child != nil ==> child == as(node4, n).children[i])
 //@   ensures @lower16 kindOf(n.flags) == 3 ==> (forall j int :: 0 <= j && j < i ==> as(node16, n).keys[j] < key) && (i < sizeOf(n.flags) ==> as(node16, n).keys[i] >= key)
@@ -101,7 +111,11 @@ package part
 //@   requires n != nil
 //@   requires kindOf(n.flags) == 2 ==> wf4(as(node4, n))
 //@   requires kindOf(n.flags) == 3 ==> wf16(as(node16, n))
-//@   requires kindOf(n.flags) == 2 || kindOf(n.flags) == 3
+//@   requires kindOf(n.flags) == 4 ==> wf48(as(node48, n))
+//@   requires 2 <= kindOf(n.flags) && kindOf(n.flags) <= 5
+//@   ensures @hit48 kindOf(n.flags) == 4 ==> (forall j int :: 0 <= j && j < sizeOf(n.flags) && keyOf(as(node48, n).children[j]) == key ==> result == as(node48, n).children[j])
+//@   ensures @miss48 kindOf(n.flags) == 4 && (forall j int :: 0 <= j && j < sizeOf(n.flags) ==> keyOf(as(node48, n).children[j]) != key) ==> result == nil
+//@   ensures @direct256 kindOf(n.flags) == 5 ==> result == as(node256, n).children[key]
 //@   ensures @hit4 kindOf(n.flags) == 2 ==> (forall j int :: 0 <= j && j < sizeOf(n.flags) && as(node4, n).keys[j] == key ==> result == as(node4, n).children[j])
 //@   ensures @miss4 kindOf(n.flags) == 2 && (forall j int :: 0 <= j && j < sizeOf(n.flags) ==> as(node4, n).keys[j] != key) ==> result == nil
 //@   ensures @hit16 kindOf(n.flags) == 3 ==> (forall j int :: 0 <= j && j < sizeOf(n.flags) && as(node16, n).keys[j] == key ==> result == as(node16, n).children[j])
@@ -109,7 +123,6 @@ package part
 
 // insert(idx, child) on node4/node16 with room: child goes to position idx with its key,
 // the children from idx on move up by one, the node stays well-formed.
-//@ spec keyOf(c *header) mathint = *c.prefixP
 //@ func (*header).key
 //@   inline
 //@ func (*header).insert
@@ -118,8 +131,15 @@ package part
 //@   requires n != nil && child != nil && child.prefixP != nil && 0 <= idx && idx <= sizeOf(n.flags)
 //@   requires kindOf(n.flags) == 2 ==> wf4(as(node4, n)) && sizeOf(n.flags) < 4 && (idx > 0 ==> as(node4, n).keys[idx-1] < keyOf(child)) && (idx < sizeOf(n.flags) ==> keyOf(child) < as(node4, n).keys[idx])
 //@   requires kindOf(n.flags) == 3 ==> wf16(as(node16, n)) && sizeOf(n.flags) < 16 && (idx > 0 ==> as(node16, n).keys[idx-1] < keyOf(child)) && (idx < sizeOf(n.flags) ==> keyOf(child) < as(node16, n).keys[idx])
-//@   requires kindOf(n.flags) == 2 || kindOf(n.flags) == 3
+//@   requires kindOf(n.flags) == 4 ==> wf48(as(node48, n)) && sizeOf(n.flags) < 48 && (idx > 0 ==> keyOf(as(node48, n).children[idx-1]) < keyOf(child)) && (idx < sizeOf(n.flags) ==> keyOf(child) < keyOf(as(node48, n).children[idx]))
+//@   requires kindOf(n.flags) == 5 ==> sizeOf(n.flags) < 256
+//@   requires 2 <= kindOf(n.flags) && kindOf(n.flags) <= 5
 //@   ensures @size sizeOf(n.flags) == old(sizeOf(n.flags)) + 1 && kindOf(n.flags) == old(kindOf(n.flags))
+//@   ensures @shift48 kindOf(n.flags) == 4 ==> (forall i int :: 0 <= i && i < idx ==> as(node48, n).children[i] == old(as(node48, n).children[i])) && (forall i int :: idx < i && i < sizeOf(n.flags) ==> as(node48, n).children[i] == old(as(node48, n).children[i-1]))
+//@   ensures @direct256 kindOf(n.flags) == 5 ==> as(node256, n).children[old(keyOf(child))] == child && (forall k int :: 0 <= k && k < 256 && k != old(keyOf(child)) ==> as(node256, n).children[k] == old(as(node256, n).children[k]))
+//@   loop 1 invariant @range idx - 1 <= i && i <= size - 1 && size == old(sizeOf(n.flags)) && n48 == as(node48, n)
+//@   loop 1 invariant @kept forall j int :: 0 <= j && j < 48 && (j <= i + 1 || j > size) ==> n48.children[j] == old(as(node48, n).children[j])
+//@   loop 1 invariant @shifted forall j int :: i + 2 <= j && j <= size ==> n48.children[j] == old(as(node48, n).children[j-1])
 //@   ensures @wf4 kindOf(n.flags) == 2 ==> wf4(as(node4, n)) && as(node4, n).children[idx] == child && as(node4, n).keys[idx] == old(keyOf(child))
 //@   ensures @wf16 kindOf(n.flags) == 3 ==> wf16(as(node16, n)) && as(node16, n).children[idx] == child && as(node16, n).keys[idx] == old(keyOf(child))
 //@   ensures @shift4 kindOf(n.flags) == 2 ==> (forall i int :: 0 <= i && i < idx ==> as(node4, n).children[i] == old(as(node4, n).children[i])) && (forall i int :: idx < i && i < sizeOf(n.flags) ==> as(node4, n).children[i] == old(as(node4, n).children[i-1]))
@@ -246,6 +266,7 @@ package part
 //@   ensures @same-only-if-owned result == n ==> old(txnIDOf(n)) == txn.txnID
 //@   ensures @frame onlyFreshExcept(txn.watches)
 //@   ensures @kind kindOf(result.flags) == kindOf(n.flags)
+//@   ensures @watches-only-grow forall c ptr :: old(has(txn.watches, c)) ==> has(txn.watches, c)
 
 // delete / removeChild / modify: wherever a node is stamped with the transaction's id, its
 // watch channel is nil, fresh, or recorded for closing (see above).
@@ -316,6 +337,8 @@ package part
 //@   atstore leaf requires @store-owned fresh($p) || txn.txnID == 0
 //@   maypanic
 //@   requires txn != nil && parent != nil && txn.watches != nil && 2 <= kindOf(parent.flags) && kindOf(parent.flags) <= 5
+//@   ensures @watches-only-grow forall c ptr :: old(has(txn.watches, c)) ==> has(txn.watches, c)
+//@   ensures @old-nodes-keep-their-watch unchangedOld(H_part_header_watch, H_part_Txn_watches, H_part_Txn_txnID, H_part_node4_leaf, H_part_node16_leaf, H_part_node48_leaf, H_part_node256_leaf)
 //@   atcall (*header).setTxnID@* requires @stamp-only-with-safe-watch $0.watch == nil || fresh($0.watch) || has(txn.watches, $0.watch)
 //@   atcall (*header).setLeaf@* requires @mutate-owned fresh($0) || (kindOf($0.flags) != 1 && txnIDOf($0) == txn.txnID)
 //@   atcall (*header).insert@* requires @mutate-owned fresh($0) || (kindOf($0.flags) != 1 && txnIDOf($0) == txn.txnID)
@@ -341,6 +364,10 @@ package part
 //@   atcall (*header).setPrefix@* requires @mutate-owned fresh($0) || (kindOf($0.flags) != 1 && txnIDOf($0) == txn.txnID)
 //@   atcall (*header).setSize@* requires @mutate-owned fresh($0) || (kindOf($0.flags) != 1 && txnIDOf($0) == txn.txnID)
 //@   atcall (*header).setKind@* requires @mutate-owned fresh($0) || (kindOf($0.flags) != 1 && txnIDOf($0) == txn.txnID)
+//@   atcall (*Txn).removeChild@1 requires @dropped-node-watch-recorded this.node.watch == nil || has(txn.watches, this.node.watch)
+//@   atcall (*Txn).cloneNode@2 requires @shifted-node-watch-recorded this.node.watch == nil || has(txn.watches, this.node.watch)
+//@   ensureslocal @deleted-leaf-watch-recorded hadOld ==> leaf != nil && (leaf.watch == nil || has(txn.watches, leaf.watch))
+//@   loop 2 invariant @leaf-watch-stays-recorded leaf != nil && (leaf.watch == nil || has(txn.watches, leaf.watch))
 //@ func (*Txn).modify
 //@   property C12 C06 C01
 //@   flag nosafety
@@ -361,4 +388,5 @@ package part
 //@   atcall (*header).setSize@* requires @mutate-owned fresh($0) || (kindOf($0.flags) != 1 && txnIDOf($0) == txn.txnID)
 //@   atcall (*header).setKind@* requires @mutate-owned fresh($0) || (kindOf($0.flags) != 1 && txnIDOf($0) == txn.txnID)
 //@   aftercall (*header).getLeaf@1 assume result == nil || kindOf(result.flags) == 1
+//@   atcall (*header).promote@1 requires @promoted-node-watch-recorded $0.watch == nil || has(txn.watches, $0.watch)
 //@   loop 1 invariant @walk-owned isBox(thisp) || (isElemOf(node4, thisp) && elemOwner(node4, thisp).txnID == txn.txnID) || (isElemOf(node16, thisp) && elemOwner(node16, thisp).txnID == txn.txnID) || (isElemOf(node48, thisp) && elemOwner(node48, thisp).txnID == txn.txnID) || (isElemOf(node256, thisp) && elemOwner(node256, thisp).txnID == txn.txnID)
